@@ -92,6 +92,9 @@ def run(ctx):
                         ok = True
                         ctx.fn(it)
         ctx.ob("M-FOLD-DOORS", "%s via try_from_floats" % who.lower(), ok, "no call of %s::try_from_floats in a fold impl" % who)
+    # the two pipelines must recognise copulas/brackets by full matches: the enum look-ahead once accepted a truncated copula at the end of input where the lexical matcher did not (D9)
+    import fullmatch
+    fullmatch.rule_P_FULLMATCH(ctx)
     ctx.undecided = ["equality of the two pipelines' values on every string (nesting, leniency on malformed input)"]
     ctx.assumptions = ["rustc HIR/name resolution is correct", "nar_dev_utils 0.42.3 dictionary semantics as read from its source"]
     ctx.trusted = ["rustc nightly front end (HIR, typeck)", "mirfacts driver", "python rule layer"]
